@@ -140,7 +140,7 @@ def cursor_contracts(cs, tier):
                     post.append(("%s-leaves-cursor-after-member" % nm, "RET.p%d == %s + %s + %s" % (i, vw.begin, off, size)))
             has_product = any(m["mkind"] == "group" for _, m in cm)
             out.append(Contract(f, "%s:%s::cursor traversal (%s)" % (cs.name, li.ident, kind), props={"C04", "C03", "C10"}, ghosts=GH_N, mode="N", pre=pre + dpre, post=post, assigns=[],
-                                backends=PB,
+                                backends=PB, optional=len(dpos) >= 4,
                                 note="legal forward traversal of level %s with the %s wrapper: never reported, agrees with random access, documented positions" % (li.ident, kind)))
     return out
 
@@ -164,7 +164,7 @@ def size_fill_contracts(cs, tier):
         dpre, dpos, endoff = dyn_chain(sch, li, vw, wm, lstart_off, wbl)
         has_product = any(m["mkind"] == "group" for _, m in wm)
         out.append(Contract(f, "%s:%s::size_bytes" % (cs.name, idn), props={"C05", "C03"}, ghosts=GH_N, mode="N", pre=pre + dpre, post=[("wire-size", "RET == %s" % endoff)], assigns=[],
-                            backends=PB if has_product else None))
+                            backends=PB if has_product else None, optional=len(dpos) >= 4))
     for kind, idn, L, cpp in g.fill_roots:
         if kind == "message":
             f = u.root("r_%s_fill" % idn)
@@ -285,7 +285,7 @@ def visit_contracts(cs, tier):
                 clause += " && RET.v.ptr[%d] == %s + %s" % (j, vw.begin, off)
             post.append(("callback-%d-is-%s-in-schema-order-with-accessor-value" % (j, m["name"]), "SPEC_IMPLIES(%s, %s)" % (guard, clause)))
         post.append(("complete-visit-leaves-cursor-at-end-of-view", "SPEC_IMPLIES(%s > %d, RET.cursor == %s + %s)" % (stop, total, vw.begin, endoff)))
-        out.append(Contract(f, "%s:%s::visit_children" % (cs.name, idn), props={"C19", "C04"}, ghosts=GH_N, mode="N", pre=pre + dpre + [ASSUME("%s >= 1" % stop)], post=post, assigns=[], backends=PB,
+        out.append(Contract(f, "%s:%s::visit_children" % (cs.name, idn), props={"C19", "C04"}, ghosts=GH_N, mode="N", pre=pre + dpre + [ASSUME("%s >= 1" % stop)], post=post, assigns=[], backends=PB, optional=len(dpos) >= 4,
                             note="recording visitor; stop ordinal symbolic: every stopping point at once"))
     return out
 
